@@ -21,11 +21,12 @@ Record kops (C V : Type) := mk_kops {
   cgtb : C -> C -> bool;                 (* x.real > y.real *)
   vzero : V; vadd : V -> V -> V; vsub : V -> V -> V; vscale : C -> V -> V; vdiv : V -> C -> V;
   vdot : V -> V -> C;                    (* sum (conj x * y) *)
-  vnrm : V -> C }.
+  vnrm : V -> C;
+  chyp : C -> C -> C }.                 (* sqrt(|a|^2 + |b|^2), the 2-norm of a pair of scalars *)
 Arguments c0 {C V}. Arguments c1 {C V}. Arguments cadd {C V}. Arguments cmul {C V}. Arguments csub {C V}.
 Arguments copp {C V}. Arguments cdiv {C V}. Arguments cinv {C V}. Arguments cconj {C V}. Arguments cgtb {C V}.
 Arguments vzero {C V}. Arguments vadd {C V}. Arguments vsub {C V}. Arguments vscale {C V}. Arguments vdiv {C V}.
-Arguments vdot {C V}. Arguments vnrm {C V}.
+Arguments vdot {C V}. Arguments vnrm {C V}. Arguments chyp {C V}.
 
 (* array[k] := x   (update_array on one column / entry) *)
 Fixpoint upd {T} (l : list T) (k : nat) (x : T) : list T :=
@@ -39,6 +40,7 @@ Section Model.
 Context {C V : Type} (o : kops C V).
 Variable A : V -> V.          (* the operator's product  x |-> A @ x *)
 Variable alias : bool.        (* does A @ x return (a view of) x ? *)
+Variable rfix : bool.         (* repaired stopping test (flag lanczos_reltol_first_step gone): the reference is ||A q_1|| *)
 
 Definition vsum (l : list V) : V := fold_left o.(vadd) l o.(vzero).
 
@@ -69,8 +71,11 @@ Definition lbody (i : nat) (s : lst) : lst :=
   let V6 := upd V5 (i + 1) new3 in
   mk_lst V6 dg (upd (lsub s) i (o.(vnrm) (col V6 (i + 1)))).
 
+(* the scale the off-diagonal entries are compared with.  Pinned code: subdiag[1] = beta_1 itself, so that at i = 2 beta_1 is compared
+   with tol*beta_1.  Repaired code: sqrt(|diag[0]|^2 + |subdiag[1]|^2) = ||A q_1||, the size of the first Krylov vector *)
+Definition lref (s : lst) : C := if rfix then o.(chyp) (ent (ldiag s) 0) (ent (lsub s) 1) else ent (lsub s) 1.
 Definition is_large (tol : C) (i : nat) (s : lst) : bool :=
-  o.(cgtb) (ent (lsub s) (i - 1)) (o.(cmul) tol (ent (lsub s) 1)) || (i <=? 1).
+  o.(cgtb) (ent (lsub s) (i - 1)) (o.(cmul) tol (lref s)) || (i <=? 1).
 Definition lcond (tol : C) (m i : nat) (ss : list lst) : bool := (i <=? m) && existsb (is_large tol i) ss.
 
 (* while_loop; the fuel is the cap the code itself enforces (i runs from 1 to at most m) *)
